@@ -6,6 +6,22 @@ use ndarray_stats::errors::{EmptyInput, MultiInputError};
 use ndarray_stats::{CorrelationExt, DeviationExt, EntropyExt, SummaryStatisticsExt};
 use num_bigint::BigInt;
 
+thread_local! {
+    /// shapes and strides (in elements) of the operands as ndarray reports them: the Coq model of
+    /// ndarray's summation order (Num/Layout.v) is evaluated on these, not on a mirror of the slicing
+    static LAYS: std::cell::RefCell<Vec<String>> = std::cell::RefCell::new(Vec::new());
+}
+fn note_layout<T>(v: &ndarray::ArrayViewD<'_, T>) {
+    let mut s = format!("L {}", v.ndim());
+    for d in v.shape() {
+        s.push_str(&format!(" {}", d));
+    }
+    for st in v.strides() {
+        s.push_str(&format!(" {}", st));
+    }
+    LAYS.with(|l| l.borrow_mut().push(s));
+}
+
 fn show_arr<T: Elem>(a: &ArrayD<T>) -> String {
     let v: Vec<T> = a.iter().cloned().collect();
     format!("{} | {}", show_usizes(a.shape()), show_vec(&v))
@@ -31,8 +47,10 @@ fn e_multi<T>(r: Result<T, MultiInputError>) -> Result<T, String> {
     })
 }
 fn finish(r: Option<Result<String, String>>) -> String {
+    let lays = LAYS.with(|l| l.borrow_mut().drain(..).collect::<Vec<_>>());
+    let tail = if lays.is_empty() { String::new() } else { format!(" | {}", lays.join(" | ")) };
     match r {
-        Some(Ok(s)) => format!("OK {}", s),
+        Some(Ok(s)) => format!("OK {}{}", s, tail),
         Some(Err(e)) => e,
         None => "PANIC".to_string(),
     }
@@ -45,8 +63,10 @@ where
 {
     let a: Parent<T> = Parent::parse(t);
     t.bar();
+    LAYS.with(|l| l.borrow_mut().clear());
     let r = guarded(|| -> Result<String, String> {
         let v = a.view();
+        note_layout(&v);
         match routine {
             "mean" => e_empty(SummaryStatisticsExt::mean(&v)).map(sc),
             "harmonic_mean" => e_empty(v.harmonic_mean()).map(sc),
@@ -66,6 +86,7 @@ where
             | "cross_entropy" => {
                 let b: Second<T> = Second::parse(t);
                 let w = b.view(&a);
+                note_layout(&w);
                 // the weighted routines take `&Self`: both operands are dynamic-dimensional views
                 match routine {
                     "weighted_mean" => e_multi(v.weighted_mean(&w)).map(sc),
@@ -85,7 +106,9 @@ where
             }
             "weighted_mean_axis" | "weighted_sum_axis" | "weighted_var_axis" | "weighted_std_axis" => {
                 let b: Second<T> = Second::parse(t);
-                let w = b.view(&a).into_dimensionality::<Ix1>().unwrap();
+                let wd = b.view(&a);
+                note_layout(&wd);
+                let w = wd.into_dimensionality::<Ix1>().unwrap();
                 t.bar();
                 let axis = t.usize();
                 match routine {
@@ -128,13 +151,16 @@ where
 {
     let a: Parent<T> = Parent::parse(t);
     t.bar();
+    LAYS.with(|l| l.borrow_mut().clear());
     let r = guarded(|| -> Result<String, String> {
         let v = a.view();
+        note_layout(&v);
         match routine {
             "mean" => e_empty(SummaryStatisticsExt::mean(&v)).map(sc),
             "weighted_mean" | "weighted_sum" => {
                 let b: Second<T> = Second::parse(t);
                 let w = b.view(&a);
+                note_layout(&w);
                 if routine == "weighted_mean" {
                     e_multi(v.weighted_mean(&w)).map(sc)
                 } else {
@@ -143,7 +169,9 @@ where
             }
             "weighted_mean_axis" | "weighted_sum_axis" => {
                 let b: Second<T> = Second::parse(t);
-                let w = b.view(&a).into_dimensionality::<Ix1>().unwrap();
+                let wd = b.view(&a);
+                note_layout(&wd);
+                let w = wd.into_dimensionality::<Ix1>().unwrap();
                 t.bar();
                 let axis = t.usize();
                 if routine == "weighted_mean_axis" {
@@ -169,6 +197,7 @@ where
     t.bar();
     let own = t.usize();
     let maxv = t.try_next().map(|x| T::parse(x));
+    LAYS.with(|l| l.borrow_mut().clear());
     let r = guarded(|| -> Result<String, String> {
         let va = a.view();
         let vb = b.view(&a);
